@@ -47,7 +47,13 @@ MANIFEST = {
             "manual_validation_never_stores (Manual mode: every stored key was stored by the user; Automatic: an acceptable "
             "inbound record is stored), inbound_answered_per_kind (FIND_NODE/GET_VALUE/PUT_VALUE/GET_PROVIDERS answered, "
             "ADD_PROVIDER/key-less/undecodable not, whatever the configuration), manual_update_never_adds - tied to the real "
-            "Kademlia serving scripted inbound substreams under the ConfigBuilder options.",
+            "Kademlia serving scripted inbound substreams under the ConfigBuilder options. Event channel "
+            "(Model/Kad/Events.lean, every capacity and every schedule of sends, suspensions and reads): "
+            "terminal_event_never_dropped (read ++ queued ++ held by the suspended send ++ not yet sent = emitted, in order; "
+            "a user who keeps reading has read exactly the emitted sequence), try_send_drops_witness (the contrast), "
+            "every_query_terminates_when_user_reads (exactly one terminal event per started operation is READ however "
+            "often the channel was full) - tied by bursts of more than DEFAULT_CHANNEL_SIZE operations / events of every "
+            "kind while the user does not read the real handle.",
     "note": "Trusted: Lean kernel; axioms propext/Classical.choice/Quot.sound; the hand-written model and its tie (sampled "
             "trace validation through adapter src/verif/c16.rs and its three trace points in kademlia/mod.rs); the iterative "
             "lookups are abstract (hypotheses: a lookup with no pending peer acts; no peer is queried twice; fan-out targets "
@@ -77,7 +83,12 @@ RULE = ("seeded scenarios on networks of 2-5 remote peers (address kinds dialabl
         "around the bounds) / ADD_PROVIDER (own / foreign provider) / GET_PROVIDERS / key-less / undecodable / silent / "
         "closing requesters x store_record / put_record / get_record / start_providing / stop_providing (try_ and awaiting "
         "handle variants) x lookups answered with peer lists x clock advances across the refresh interval, ending with "
-        "`settle`; nine fixed cases (one per newly driven region) at every seed")
+        "`settle`; nine fixed cases (one per newly driven region) at every seed; event-channel cases (13 per seed): "
+        "`burst n <op>` = n in 4097..4296 operations of every kind back to back while the user does not read, `hold` .. "
+        "`release <op>` with the channel exactly full / one or two short when one RoutingTableUpdate + FindNodeSuccess / "
+        "network partial result / IncomingRecord / IncomingProvider / PutRecordSuccess is due, 4100+ inbound PUT_VALUEs; "
+        "after a release / burst the user reads one event per scheduling round; routing-table wiring histories "
+        "(checks/kadwire.py, `t` box) for the tie of Model/Kad/TableWiring.lean")
 TRUSTED_BASE = ["Lean 4.33 kernel", "axioms: propext, Classical.choice, Quot.sound only",
                 "hand-written model Model/Kad/Coordinator.lean tied to kademlia/mod.rs by trace validation",
                 "adapter /repo/src/verif/c16.rs (+ c16_engine.rs, c16_manager.rs), three trace points in kademlia/mod.rs, "
@@ -89,7 +100,10 @@ TRUSTED_BASE = ["Lean 4.33 kernel", "axioms: propext, Classical.choice, Quot.sou
                 "tokio paused clock for the 15 s executor timeouts; in-memory yamux substreams",
                 "adapter src/verif/c16_exec.rs: the real QueryExecutor on Substreams over scripted in-memory pipes "
                 "(src/verif/io.rs), polled once per logical second",
-                "hand-written models Model/Kad/Executor.lean and Model/Kad/Serve.lean tied by the same differential run"]
+                "hand-written models Model/Kad/Executor.lean and Model/Kad/Serve.lean tied by the same differential run",
+                "Model/Kad/Events.lean: tokio's bounded mpsc channel as FIFO + one suspended sender (the coordinator is the "
+                "only sender of the event channel); tied by the burst / hold / release cases",
+                "adapter src/verif/c16_table.rs (`t` box, dictated keys) for the routing-table wiring model"]
 ASSUMPTIONS = ["every accepted dial is concluded, every accepted substream open is answered, every executor future completes "
                "(by reply, close or its timeout) - the real transport manager breaks the first one when the node is at its "
                "outgoing-connection limit (defect dial-at-connection-limit-never-concluded, repaired by a fix: commit; S2 witness in the corpus)",
@@ -485,9 +499,10 @@ def channel_cases(rng):
     # two events per operation (partial result + success straight from the command arm), odd / even overflow
     yield ["net g g", "store_record 1", f"burst {cap // 2 + rng.choice([1, 2, 30])} get_record 1 one", "settle"]
     # a mix within one case, the channel overflowing in the second burst; user reads in between or not
-    yield ["net g g", "store_record 1", "hold", f"burst {rng.randrange(1000, 2000)} get_record 1 one",
-           f"burst {rng.randrange(1000, 2040)} find_node 2", f"burst {rng.randrange(30, 300)} get_record 2 all",
-           "release", "find_node 1", "settle"]
+    a, b = rng.randrange(500, 1400), rng.randrange(300, 1200)        # 2a + b < 4096: nothing suspends while held
+    yield ["net g g", "store_record 1", "hold", f"burst {a} get_record 1 one", f"burst {b} find_node 2",
+           f"release burst {cap - 2 * a - b + rng.choice([0, 1, 2, 77])} get_record 2 all", "find_node 1", "hold",
+           "find_node 2", "release", "settle"]
     # the channel exactly full (or one short) when a single event of each remaining kind is due
     fill = lambda: f"burst {cap // 2 - rng.choice([0, 0, 1])} get_record 1 one"
     yield ["net g g g", "add_known_peer 1", "established 1", "find_node 5", "subopen #0", "store_record 1", "hold", fill(),
